@@ -168,9 +168,10 @@ static State makeFresh(Sys& S, const State& h) {
     return f;
 }
 
-struct Cmp { long n = 0, nbit = 0, ndiff = 0; double maxrel = 0; std::string first, names, soft; };
+struct Cmp { long n = 0, nbit = 0, ndiff = 0; double maxrel = 0; std::string first, names, soft; unsigned long long hash = 1469598103934665603ULL; };
 static void cmp1(Cmp& c, const char* what, double a, double b, double scale) {
     c.n++;
+    { unsigned long long bits; double z = a == 0 ? 0.0 : a; std::memcpy(&bits, &z, 8); c.hash = (c.hash ^ bits) * 1099511628211ULL; }  // FNV over the history State's values
     if (std::memcmp(&a, &b, sizeof(double)) == 0 || (a != a && b != b)) { c.nbit++; return; }
     const double d = std::abs(a - b), tol = 1e-11 * std::max(1.0, scale) ;
     if (c.soft.size() < 150) { char buf[120]; snprintf(buf, 120, "%s%s:%.6g:%.6g", c.soft.empty() ? "" : ",", what, a, b); c.soft += buf; }
@@ -230,8 +231,14 @@ static void compare(Sys& S, const State& h) {
         cmpSV(c, "rigidBodyForces", S.sys.getRigidBodyForces(h, Stage::Dynamics), S.sys.getRigidBodyForces(f, Stage::Dynamics));
         cmpV(c, "mobilityForces", S.sys.getMobilityForces(h, Stage::Dynamics), S.sys.getMobilityForces(f, Stage::Dynamics));
     }
+    double mulmax = 0; int allp = 1;
+    for (int i = 1; i <= S.nb; ++i) if (S.body[i].getLockLevel(h) == Motion::NoLevel) allp = 0;
     if (g >= Stage::Acceleration) {
-        cmpV(c, "udot", h.getUDot(), f.getUDot()); cmpV(c, "multipliers", h.getMultipliers(), f.getMultipliers());
+        cmpV(c, "udot", h.getUDot(), f.getUDot());
+        // with every mobility prescribed G M^-1 G^T is the zero matrix and FactorQTZ::solve leaves the multipliers unwritten
+        // (known finding); they are then not compared but their magnitude is reported
+        if (allp && h.getMultipliers().size()) { for (int i = 0; i < h.getMultipliers().size(); ++i) mulmax = std::max(mulmax, std::abs(h.getMultipliers()[i])); }
+        else cmpV(c, "multipliers", h.getMultipliers(), f.getMultipliers());
         cmpV(c, "udoterr", h.getUDotErr(), f.getUDotErr()); if (h.getNZ()) cmpV(c, "zdot", h.getZDot(), f.getZDot());
         for (int i = 1; i <= S.nb; ++i) {
             const SpatialVec &a = S.body[i].getBodyAcceleration(h), &b = S.body[i].getBodyAcceleration(f);
@@ -261,8 +268,8 @@ static void compare(Sys& S, const State& h) {
     }
     if (S.hasGrav) g_gravOffset += S.grav.getNumEvaluations() - before;
     g_counting = true;
-    printf("CMP stage=%d n=%ld bitwise=%ld ndiff=%ld maxrel=%.3g names=%s first=%s notbitwise=%s\n", (int)g, c.n, c.nbit, c.ndiff, c.maxrel,
-           c.names.empty() ? "-" : c.names.c_str(), c.first.empty() ? "-" : c.first.c_str(), c.soft.empty() ? "-" : c.soft.c_str());
+    printf("CMP stage=%d n=%ld bitwise=%ld ndiff=%ld maxrel=%.3g names=%s first=%s notbitwise=%s mulgarbage=%.17g allp=%d hash=%016llx\n", (int)g, c.n, c.nbit, c.ndiff, c.maxrel,
+           c.names.empty() ? "-" : c.names.c_str(), c.first.empty() ? "-" : c.first.c_str(), c.soft.empty() ? "-" : c.soft.c_str(), mulmax, allp, c.hash);
 }
 
 int main() {
